@@ -368,6 +368,30 @@ def ex_block(r, nlines):
 EX_TAIL = b'.\n' * 40 + b'q!\n'
 
 
+def many_buffers(r, nlines):
+    """A session that opens 17..24 distinct (mostly non-existent) paths -- more than the 16 slots of bufs[] -- mixed with
+    buffer switches, deletions, next/prev, edits and writes: list of ex command lines (str)."""
+    out = []
+    n = r.range(17, 24)
+    for i in range(1, n + 1):
+        out.append(r.choice(['e', 'e!', 'e!', 'ew!', 'edit!']) + ' p%d.txt' % i)
+        t = r.below(10)
+        if t == 0:
+            out.append('b ' + r.choice(['-', '+', '1', '2', '15', '16', '17', '#', '%', '^', '~', '!']))
+        elif t == 1:
+            out += ['a', text_line(r, 4), '.']
+        elif t == 2:
+            out.append(r.choice(['w!', 'w! q%d.txt' % i, 'n', 'prev', 'b', 'e! f.txt', 'e! #', 'b!', 'se wa']))
+        elif t == 3:
+            out.append(simple_cmd(r, nlines, 0))
+    for _ in range(r.range(0, 6)):
+        out.append(r.choice(['b -', 'b +', 'b !', 'b 3', 'b 17', 'b 20', 'b ~', 'b', 'e! p1.txt', 'e! p%d.txt' % r.range(1, 30), 'n', 'prev', 'd', 'u', 'w!']))
+    return out
+
+
+MANY_ARGS = ['p%d.txt' % i for i in range(1, 25)]
+
+
 def ex_script(r):
     """Returns (lines: list of bytes lines without the tail, files: dict)."""
     files = {}
@@ -384,6 +408,8 @@ def ex_script(r):
             lines.append(simple_cmd_set(r))
     for _ in range(r.choice([1, 2, 3, 5, 8, 12, 20])):
         lines += ex_block(r, nl)
+        if r.chance(1, 120):
+            lines += many_buffers(r, nl)
     return [l.encode('utf-8') for l in lines], files
 
 
@@ -551,6 +577,12 @@ def vi_stream(r):
             atoms.append(b':' + simple_cmd_set(r).encode() + b'\n')
     for _ in range(r.choice([1, 2, 4, 8, 12, 20, 30])):
         atoms.append(vi_atom(r, nl))
+        if r.chance(1, 100):
+            for l in many_buffers(r, nl):
+                if l in ('a',):
+                    atoms.append(b'ix' + ESC)
+                elif l != '.' and not l.startswith('so') and '!' not in l.replace('e!', '').replace('w!', '').replace('b!', '').replace('b !', '').replace('ew!', '').replace('edit!', ''):
+                    atoms.append(b':' + l.encode('utf-8') + b'\n')
     return atoms, files, rows, cols
 
 
